@@ -16,15 +16,44 @@ def split (obs : List (β × Bool)) : List (List β) :=
 end TV.Split
 
 namespace TV.Split
-/-- `segmentation()`: per observation, fold of `value ≤ threshold` over the tested features (NaN =
-`none` is skipped), starting from `true` in AND mode and `false` in OR mode; the marker is the
-negation of the fold. `vals` and `ths` are position-aligned (the code reads `thresholds_max[index]`). -/
-def foldCmp (andMode : Bool) : List Rat → List (Option Rat) → Bool → Bool
-  | th :: ths, some v :: vs, acc =>
-    foldCmp andMode ths vs (if andMode then acc && decide (v ≤ th) else acc || decide (v ≤ th))
-  | _ :: ths, none :: vs, acc => foldCmp andMode ths vs acc
-  | _, _, acc => acc
+/-! `segmentation()`: per observation, fold of `value ≤ threshold` over the tested features in the
+order of `afs_input` (`index` = position of the feature), starting from `true` in AND mode and
+`false` in OR mode; a NaN value (`none`) is skipped before the threshold is even looked up; the
+marker is the negation of the fold. -/
 
-def marker (andMode : Bool) (ths : List Rat) (vals : List (Option Rat)) : Bool :=
-  !(foldCmp andMode ths vals andMode)
+/-- `seuil_max = sys.float_info.max; if len(thresholds_max) >= index: seuil_max = thresholds_max[index]`.
+`none` = the `IndexError` raised when `index == len(thresholds_max)` (the guard is `>=`, not `>`);
+`some none` = the default `sys.float_info.max` (only reachable for `index > len`), below which every
+finite value lies; `some (some th)` = the listed threshold. -/
+def threshold (ths : List Rat) (index : Nat) : Option (Option Rat) :=
+  if ths.length ≥ index then
+    match ths[index]? with
+    | some th => some (some th)
+    | none => none
+  else some none
+
+/-- the inner `for index, af_input in enumerate(afs_input)` loop; `none` = `IndexError` -/
+def foldCmp (andMode : Bool) (ths : List Rat) : Nat → List (Option Rat) → Bool → Option Bool
+  | _, [], acc => some acc
+  | index, none :: vs, acc => foldCmp andMode ths (index + 1) vs acc
+  | index, some v :: vs, acc =>
+    match threshold ths index with
+    | none => none
+    | some t =>
+      let c := match t with
+        | some th => decide (v ≤ th)
+        | none => true
+      foldCmp andMode ths (index + 1) vs (if andMode then acc && c else acc || c)
+
+/-- marker of one observation (`true` = 1, `false` = 0); `none` = the call raised `IndexError` -/
+def marker (andMode : Bool) (ths : List Rat) (vals : List (Option Rat)) : Option Bool :=
+  (foldCmp andMode ths 0 vals andMode).map (!·)
+
+/-- the outer loop over the observations: the first `IndexError` aborts the call -/
+def markers (andMode : Bool) (ths : List Rat) : List (List (Option Rat)) → Option (List Bool)
+  | [] => some []
+  | r :: rs =>
+    match marker andMode ths r with
+    | none => none
+    | some b => (markers andMode ths rs).map (b :: ·)
 end TV.Split
